@@ -133,3 +133,44 @@ Proof.
     destruct (N.eqb (g_no g) 0); cbn [negb]; apply IH. }
   apply H.
 Qed.
+
+(* ---- history.find_directory_hash_entries_for_path ------------------------------------------------------------------- *)
+Lemma fold_append_flat_map {A B} (F : A -> list B) : forall l acc,
+  fold_left (fun acc a => acc ++ F a) l acc = acc ++ flat_map F l.
+Proof.
+  induction l as [|a l IH]; intros acc; cbn [fold_left flat_map]; [rewrite app_nil_r; reflexivity|].
+  rewrite IH, app_assoc. reflexivity.
+Qed.
+
+Lemma fold_left_pointwise {A B} (f g : A -> B -> A) : (forall a b, f a b = g a b) -> forall l a, fold_left f l a = fold_left g l a.
+Proof. intros H. induction l as [|b l IH]; intros a; cbn [fold_left]; [reflexivity|]. rewrite H. apply IH. Qed.
+
+Lemma dir_entries_fold gens p acc :
+  fold_left (fun directory_hash_entries hash_list =>
+    match find_media_hash hash_list p with
+    | None => directory_hash_entries
+    | Some media_hash => if r_dir media_hash then directory_hash_entries ++ map (fun hash_entry => (g_no hash_list, hash_entry)) (r_entries media_hash) else directory_hash_entries
+    end) gens acc
+  = acc ++ flat_map (fun g => match find_media_hash g p with Some r => if r_dir r then map (fun e => (g_no g, e)) (r_entries r) else [] | None => [] end) gens.
+Proof.
+  rewrite <- fold_append_flat_map. apply fold_left_pointwise.
+  intros a g. destruct (find_media_hash g p) as [r|]; [destruct (r_dir r)|]; rewrite ?app_nil_r; reflexivity.
+Qed.
+Lemma root_entries_fold gens acc :
+  fold_left (fun directory_hash_entries hash_list =>
+    match g_root hash_list with
+    | None => directory_hash_entries
+    | Some root_entries => directory_hash_entries ++ map (fun hash_entry => (g_no hash_list, hash_entry)) root_entries
+    end) gens acc
+  = acc ++ flat_map (fun g => match g_root g with Some es => map (fun e => (g_no g, e)) es | None => [] end) gens.
+Proof.
+  rewrite <- fold_append_flat_map. apply fold_left_pointwise.
+  intros a g. destruct (g_root g); rewrite ?app_nil_r; reflexivity.
+Qed.
+
+Theorem src_find_directory_entries_is_model gens p : src_find_directory_entries gens p = find_directory_entries gens p.
+Proof.
+  unfold src_find_directory_entries, find_directory_entries. cbv zeta.
+  rewrite dir_entries_fold. cbn [app].
+  destruct p as [|n p']; cbn [is_nil]; [apply root_entries_fold|rewrite app_nil_r; reflexivity].
+Qed.
